@@ -609,6 +609,9 @@ func knownFindingMonitors(pre, post *te.VerifSnap, im *impl, evFrom int, step in
 			}
 			if !digits {
 				n = 1
+				if stepBytes[2] == ';' {
+					n = 0 // an empty first parameter in front of a ';' is stored as 0, not as the default
+				}
 			}
 			if h := s.Bot - s.Top + 1; n > h {
 				n = h
